@@ -21,4 +21,7 @@ def run(report, tier, seed):
     cache_hist.run(report, tier, seed)
 
 
-replay = generic_replay
+def replay(rp):
+    if "obligation" in rp and "function" in rp:
+        return generic_replay(rp)
+    return cache_hist.replay(rp)
